@@ -51,8 +51,59 @@ THEOREMS = [
     "Ural.BracketHost.bracketedHostOk_canon",
     "Ural.Props.C01.urlsplit_urlunsplit",
     "Ural.Props.C01.accessors_unsplitNetloc",
+    # spelling-insensitivity of the whole function on STRINGS (Props/C02Spelling.lean):
+    # every string (cleaning pass) ...
+    "Ural.Props.C02.canon_surrounding",
+    "Ural.Props.C02.canon_control_inserted",
+    "Ural.Props.C02.canon_hex_case_step",
+    "Ural.Props.C02.canon_hex_case",
+    # ... and every string of the grammar class NormBridge.UrlG (bridge: parse_str)
+    "Ural.NormBridge.parse_str",
+    "Ural.Props.C02.ensureProtocol_str",
+    "Ural.Props.C02.canonicalize_str",
+    "Ural.Props.C02.canonSplit_congr",
+    "Ural.Props.C02.canon_scheme_string",
+    "Ural.Props.C02.canon_host_case_string",
+    "Ural.Props.C02.canon_punycode_label_string",
+    "Ural.Props.C02.canon_default_port_string",
+    "Ural.Props.C02.canon_empty_query_string",
+    "Ural.Props.C02.canon_empty_fragment_string",
+    "Ural.Props.C02.canon_path_string",
+    "Ural.Props.C02.canon_dot_segments_string",
+    "Ural.Props.C02.canon_insert_segment_string",
+    "Ural.Props.C02.canon_insert_dot_string",
+    "Ural.Props.C02.canon_path_escaped_ascii_string",
+    "Ural.Props.C02.canon_path_escaped_space_string",
+    "Ural.Props.C02.canon_path_escaped_utf8_string",
+    "Ural.Props.C02.canon_fragment_escaped_ascii_string",
+    "Ural.Props.C02.canon_fragment_escaped_space_string",
+    "Ural.Props.C02.canon_fragment_escaped_utf8_string",
+    "Ural.Props.C02.canon_query_subst_string",
+    "Ural.Props.C02.canon_query_escaped_ascii_string",
+    "Ural.Props.C02.canon_query_escaped_space_string",
+    "Ural.Props.C02.canon_query_escaped_utf8_string",
+    "Ural.Props.C02.canon_userinfo_subst_string",
+    "Ural.Props.C02.canon_userinfo_escaped_ascii_string",
+    "Ural.Props.C02.canon_userinfo_escaped_space_string",
+    "Ural.Props.C02.canon_userinfo_escaped_utf8_string",
+    "Ural.Props.C02.toyPuny_laws",
+    # escape-equivalence of the safe unquoters as substitution laws on strings (Lemmas/C02String.lean)
+    "Ural.C02String.preClean_hex_step",
+    "Ural.C02String.tokens_append_closed",
+    "Ural.C02String.safelyUnquote_escaped_ascii",
+    "Ural.C02String.safelyUnquote_escaped_space",
+    "Ural.C02String.safelyUnquote_escaped_utf8",
+    "Ural.C02String.escaped_ascii_context_needed",
+    "Ural.C02String.pctEncode_ok",
+    "Ural.C02String.splitFirst_subst_shape",
+    "Ural.C02String.splitOn_subst_shape",
+    "Ural.C02String.interch_ascii",
+    "Ural.C02String.interch_space",
+    "Ural.C02String.interch_utf8",
+    "Ural.Props.C04.canonHost_lower",
+    "Ural.Props.C04.preClean_surrounding",
 ]
-EXTRA_IMPORTS = ["UralModel.Props.C02Whole"]
+EXTRA_IMPORTS = ["UralModel.Props.C02Whole", "UralModel.Props.C02Spelling"]
 TABLE_OBLIGATIONS = ["Ural.Props.C02.tables_modes", "Ural.Normpath.pathClean_ascii", "Ural.Props.C01.tables_authority"]
 RULE = (
     "A case is a base URL (structured components over the quantifier's token alphabet) plus a "
